@@ -212,7 +212,7 @@ class VirtualFS:
     """
 
     def __init__(self, files: Dict[str, object], **simfile_kw) -> None:
-        self.files = dict(files)
+        self.files = {os.path.normpath(k): v for k, v in files.items()}
         self.opened: List[Tuple[str, str]] = []
         self.simfiles: Dict[str, SimFile] = {}
         self.simfile_kw = simfile_kw
